@@ -160,6 +160,15 @@ def gen_case(rng, n=None, small=False):
         for i in rng.sample(range(n), rng.randrange(1, max(2, n // 6))):
             iv[i] = rng.choice([0.0, 0.0, -1.0, -iv[i]])
             nbad += 1
+    gap = False
+    if not small and n >= 30 and rng.random() < 0.15:
+        # a run of zero-weight data several breakpoint intervals wide: the first fit drops breakpoints (status -1),
+        # the loop must refit on the reduced knot set before any rejection
+        srt = np.argsort(x, kind='stable')
+        a = rng.randrange(n // 5, n // 2)
+        for i in srt[a:a + rng.randrange(n // 4, n // 3 + 1)]:
+            iv[i] = 0.0
+        gap = True
     good = np.nonzero(iv > 0)[0]
     nout = 0
     outl = []
@@ -180,7 +189,11 @@ def gen_case(rng, n=None, small=False):
     gx = np.sort(x[iv > 0])
     gspan = (gx[-1] - gx[0]) if ngood > 1 and gx[-1] > gx[0] else span
     ok = rng.choice(['bkspace', 'nbkpts', 'everyn', 'bkpt'])
-    if ok == 'bkspace':
+    if gap:
+        ok = 'nbkpts'
+    if gap:
+        opt = ('nbkpts', rng.randrange(10, 16))
+    elif ok == 'bkspace':
         opt = ('bkspace', core.f2b(gspan / rng.uniform(1.3, max(1.5, min(8.0, ngood / (k + 1.0))))))
     elif ok == 'nbkpts':
         opt = ('nbkpts', rng.randrange(2, max(3, min(9, ngood // (k + 1) + 2))))
@@ -193,7 +206,7 @@ def gen_case(rng, n=None, small=False):
     return {'stream': 'iterfit', 'nord': k, 'x': fb(x), 'y': fb(y), 'iv': fb(iv), 'opt': list(opt),
             'lower': None if (l := lim()) is None else core.f2b(l), 'upper': None if (u_ := lim()) is None else core.f2b(u_),
             'maxiter': rng.choice([0, 1, 2, 3, 10, 10, 20]), 'order': order, 'ties': bool(len(set(x.tolist())) < n),
-            'outliers': outl, 'nbad': nbad}
+            'outliers': outl, 'nbad': nbad, 'gap': gap}
 
 
 # ---------------------------------------------------------------- checking one case
@@ -259,6 +272,13 @@ def judge(ctx, case, impl, sset, model):
             metamorphic(ctx, case, I, x, y, iv, tol, ys)
     elif verdict == 'outside' and ngood < max(2, k):
         ctx.count('iterfit:too-few-good-points(outside the statement)')
+    if case.get('gap') and not case['outliers'] and (lo is None or lo >= 5) and (up is None or up >= 5):
+        # breakpoints over the data gap are dropped and the fit repeated on the reduced knot set; the data are a smooth
+        # signal with Gaussian noise and no outlier, the limits are >= 5 sigma: (almost) nothing may be rejected
+        rej = int(((iv > 0) & ~om).sum())
+        ctx.count('iterfit:gap-case:%s' % ('none-rejected' if rej == 0 else 'some-rejected'))
+        # (counted, not judged: a reduced knot set can legitimately misfit the edges of the gap by many sigma - observed on
+        #  the unchanged tree - so no statement-level verdict is drawn here; the correspondence with the model decides)
     # ---------------- correspondence with the model
     if model is None:
         return
@@ -284,8 +304,12 @@ def judge(ctx, case, impl, sset, model):
         ctx.count('model:not-compared:' + verdict.split(':')[0])
         return
     if M['outmask'] != I['outmask']:
+        ndiff = sum(1 for a_, b_ in zip(M['outmask'], I['outmask']) if a_ != b_)
         if verdict == 'judged':
             ctx.disagree('iterfit:outmask', case, {'outmask': I['outmask']}, {'outmask': M['outmask']})
+        elif ndiff > max(2, n // 20) and case.get('gap') and not all(M['outmask']):
+            # without a known margin one or two points may sit on a limit; many differing points are not a rounding matter
+            ctx.disagree('iterfit:outmask(many points, dropped breakpoints)', case, {'outmask': I['outmask']}, {'outmask': M['outmask']})
         else:
             ctx.count('model:outmask-differs-unjudged(no margin known)')
         return
